@@ -78,26 +78,27 @@ type Finding struct {
 }
 
 type Stats struct {
-	mu          sync.Mutex
-	Paths       int
-	Completed   int
-	Pruned      int
-	Decisions   int
-	Asserts     int
-	SymAsserts  int
-	Discharged  int
-	Funcs       map[string]int // function -> instructions
-	Intrinsics  map[string]int
-	Stubs       map[string]int
-	Inconcl     []string
-	Findings    []Finding
-	Witnesses   map[string]int // reach label -> count
-	WitnessMods []map[string]interface{}
-	FeasQ       int
-	OblQ        int
-	SolverTime  time.Duration
-	Samples     []PathSample
-	MaxSteps    int
+	mu           sync.Mutex
+	Paths        int
+	Completed    int
+	Pruned       int
+	Decisions    int
+	Asserts      int
+	SymAsserts   int
+	Discharged   int
+	Funcs        map[string]int // function -> instructions
+	Intrinsics   map[string]int
+	Stubs        map[string]int
+	Inconcl      []string
+	Findings     []Finding
+	FindingCount map[string]int
+	Witnesses    map[string]int // reach label -> count
+	WitnessMods  []map[string]interface{}
+	FeasQ        int
+	OblQ         int
+	SolverTime   time.Duration
+	Samples      []PathSample
+	MaxSteps     int
 }
 
 type PathSample struct {
@@ -109,7 +110,7 @@ type PathSample struct {
 }
 
 func NewStats() *Stats {
-	return &Stats{Funcs: map[string]int{}, Intrinsics: map[string]int{}, Stubs: map[string]int{}, Witnesses: map[string]int{}}
+	return &Stats{FindingCount: map[string]int{}, Funcs: map[string]int{}, Intrinsics: map[string]int{}, Stubs: map[string]int{}, Witnesses: map[string]int{}}
 }
 
 func (in *Interp) noteFunc(fn *ssa.Function) {
@@ -729,7 +730,9 @@ func Explore(p *Program, entry *ssa.Function, cfg ExploreConfig) (*ExploreResult
 					}
 				}
 				for _, f := range res.Findings {
-					if len(stats.Findings) < 200 {
+					key := f.Kind + "|" + f.Msg + "|" + f.KnownID
+					stats.FindingCount[key]++
+					if stats.FindingCount[key] <= 3 && len(stats.Findings) < 400 {
 						stats.Findings = append(stats.Findings, f)
 					}
 				}
